@@ -195,8 +195,12 @@ func valTag(t *Term) string {
 	}
 	if t.Op == "append" && len(t.Args) == 2 {
 		old, add := t.Args[0], t.Args[1]
-		if old.Op == "ext" && old.Idx == 0 && old.Args[0].Op == "lookup" && isRespHeaderMap(old.Args[0].Args[0]) && add.Op == "lit" && len(add.Args) == 1 {
-			k, _ := old.Args[0].Args[1].ConstString()
+		lk := old
+		if old.Op == "ext" && old.Idx == 0 {
+			lk = old.Args[0]
+		}
+		if lk.Op == "lookup" && isRespHeaderMap(lk.Args[0]) && add.Op == "lit" && len(add.Args) == 1 {
+			k, _ := lk.Args[1].ConstString()
 			return fmt.Sprintf("append(old(%s), %s)", k, valTag(add.Args[0]))
 		}
 	}
